@@ -220,7 +220,7 @@ def run_case(case, ctx):
         w["graph"] = {"n": n, "edges": [e[:4] for e in spec["edges"]]}
         return violated(w, sig, nt, sorted(cls))
 
-    net, ids, nodes, _e = G.build_network(spec)
+    net, ids, nodes, _e = G.build_network(spec, random.Random(case["ord"] + 1) if case["ord"] % 3 == 0 else None)
     ops = [("pair", s, t) for s in range(n) for t in range(n)]
     ops += [("list", s, None) for s in range(n)]
     ops += [("table", c, None) for c in cuts] + [("table", None, None)]
